@@ -93,6 +93,12 @@ impl<'a> Decoder<'a> {
         let container_header = self.buf.read_u32::<BigEndian>()?;
 
         match container_header & CONTAINER_HEADER_TYPE_MASK {
+            // a scalar header carries no count: it is exactly `0x20000000`. JSON text that
+            // starts with `"`, `-` or a digit has the same top bits and must not be taken
+            // for one, it is left to the text fallback of `from_slice`.
+            SCALAR_CONTAINER_TAG if container_header != SCALAR_CONTAINER_TAG => {
+                Err(Error::InvalidJsonbHeader)
+            }
             SCALAR_CONTAINER_TAG => {
                 let encoded = self.buf.read_u32::<BigEndian>()?;
                 let jentry = JEntry::decode_jentry(encoded);
